@@ -28,6 +28,7 @@ func (g *Gen) inRange(t types.Type, term string) string {
 }
 
 func (g *Gen) instr(f *Frame, ci *cfgInfo, b *ssa.BasicBlock, ins ssa.Instruction) {
+	g.cur = f
 	switch i := ins.(type) {
 	case *ssa.DebugRef:
 	case *ssa.Alloc:
@@ -68,6 +69,12 @@ func (g *Gen) instr(f *Frame, ci *cfgInfo, b *ssa.BasicBlock, ins ssa.Instructio
 	case *ssa.ChangeType:
 		x := g.val(f, i.X)
 		g.setVal(f, i, x.S)
+		if ci, ok := g.resolveFuncValue(x); ok {
+			if g.closures == nil {
+				g.closures = map[string]closureInfo{}
+			}
+			g.closures[f.vals[i].S] = ci
+		}
 	case *ssa.ChangeInterface:
 		x := g.val(f, i.X)
 		g.setVal(f, i, x.S)
@@ -207,6 +214,10 @@ func (g *Gen) instrUnOp(f *Frame, i *ssa.UnOp) {
 		}
 		if gl, ok := i.X.(*ssa.Global); ok && !isStruct(el) {
 			g.setVal(f, i, g.loadLoc(f, g.locOf(f, gl)))
+			if g.w.initNonNil(gl) && g.d.sortOf(el) == "Int" {
+				g.trusted["package variable "+gl.Name()+" is assigned only by the package initialiser (non-nil)"] = true
+				g.assume(f.en, fmt.Sprintf("(not (= %s 0))", f.vals[i].S))
+			}
 			return
 		}
 		x := g.val(f, i.X)
@@ -215,7 +226,14 @@ func (g *Gen) instrUnOp(f *Frame, i *ssa.UnOp) {
 			g.setVal(f, i, g.loadStruct(f.st, x.S, el))
 			return
 		}
-		g.setVal(f, i, g.read(f.st, g.cellLoc(x.S, el)))
+		l := g.cellLoc(x.S, el)
+		g.setVal(f, i, g.read(f.st, l))
+		if ci, ok := g.cellFn[g.get(f.st, l.comp)+"|"+x.S]; ok {
+			if g.closures == nil {
+				g.closures = map[string]closureInfo{}
+			}
+			g.closures[f.vals[i].S] = ci
+		}
 	case token.NOT:
 		g.setVal(f, i, not(g.val(f, i.X).S))
 	case token.SUB:
@@ -259,7 +277,14 @@ func (g *Gen) instrStore(f *Frame, i *ssa.Store) {
 		g.storeStruct(f.st, x.S, el, v.S)
 		return
 	}
-	g.write(f.st, g.cellLoc(x.S, el), v.S)
+	l := g.cellLoc(x.S, el)
+	g.write(f.st, l, v.S)
+	if ci, ok := g.resolveFuncValue(v); ok {
+		if g.cellFn == nil {
+			g.cellFn = map[string]closureInfo{}
+		}
+		g.cellFn[f.st.comp[l.comp]+"|"+x.S] = ci
+	}
 }
 
 func goDiv(a, b string) string {
@@ -622,6 +647,7 @@ func (g *Gen) instrMapUpdate(f *Frame, i *ssa.MapUpdate) {
 	val, has, ln, _, _ := g.mapComps(mt)
 	g.safety(f, fmt.Sprintf("(not (= %s 0))", m.S), "nil-map-write", i.Pos())
 	hv, hh, hl := g.get(f.st, val), g.get(f.st, has), g.get(f.st, ln)
+	g.frameWrite(val, m.S)
 	g.set(f.st, ln, fmt.Sprintf("(store %[1]s %[2]s (ite (select (select %[3]s %[2]s) %[4]s) (select %[1]s %[2]s) (+ (select %[1]s %[2]s) 1)))", hl, m.S, hh, k.S))
 	g.set(f.st, val, fmt.Sprintf("(store %[1]s %[2]s (store (select %[1]s %[2]s) %[3]s %[4]s))", hv, m.S, k.S, v.S))
 	g.set(f.st, has, fmt.Sprintf("(store %[1]s %[2]s (store (select %[1]s %[2]s) %[3]s true))", hh, m.S, k.S))
